@@ -70,3 +70,19 @@ def pmap(fn, tasks):
     ctx = multiprocessing.get_context("fork")
     with ctx.Pool(min(NPROC, len(tasks))) as pool:
         return pool.map(fn, tasks, chunksize=1)
+
+
+COUNT_KEYS = ("n_random", "n_negdv", "n_small", "n_big", "batches", "same_scenario", "same_layout", "different")
+
+
+def budget(B, tier):
+    """budget of a suite for a tier. `deep` (used by a quick check whose proof obligations broke: the search for a
+    failing input) is three times the quick number of cases, every case as in the quick tier; cases are seeded by
+    (seed, index), so the quick cases are among them."""
+    if tier != "deep":
+        return B[tier], tier
+    q = dict(B["quick"])
+    for k in COUNT_KEYS:
+        if k in q:
+            q[k] = 3 * q[k]
+    return q, "quick"
